@@ -5,6 +5,7 @@
   (`Tls.upstream`: chain building, validity period, name matching by webpki / OpenSSL) is a parameter;
   it is enumerated exhaustively against real handshakes by the harness (see DESIGN.md, C14).
 -/
+import Atto.Gen.Consts
 import Atto.Model.Tls
 import Atto.Props.C16
 namespace Atto
@@ -86,5 +87,13 @@ theorem C14_scope (hist : List SOp) (b : Nat) (f : Field) (v : Nat) :
     (∀ b', b' ≠ b → (((Heap.exec {} hist).exec [.bldSet b f v]).step (.obsBuilder b')).2
             = ((Heap.exec {} hist).step (.obsBuilder b')).2) :=
   C16_request_isolated_heap hist [.bldSet b f v] b (by intro op hop; simp at hop; subst hop; rfl)
+
+
+/-- Tie to the source: `BaseSettings::default()` as extracted on this run has both flags off, and
+    the model's defaults are those values. -/
+theorem C14_default_table :
+    Consts.defaultAcceptInvalidCerts = false ∧ Consts.defaultAcceptInvalidHostnames = false ∧
+    ({} : Scalars).acceptInvalidCerts = Consts.defaultAcceptInvalidCerts ∧
+    ({} : Scalars).acceptInvalidHostnames = Consts.defaultAcceptInvalidHostnames := by decide
 
 end Atto
